@@ -1,5 +1,9 @@
 NOT_YET = {}
 CLAIMED = {
+ "C16": ("crash/hang/leak monitor over seeded mutational batches in journalled child processes (API boundary: return, error markers, canary build, goroutine baseline, per-call watchdog)",
+         "Exploration: 120k (quick) / 2.4M (thorough) cases, each a pure function of (seed, index): repo test inputs for 7 loaders × token/byte mutators, deep nesting, malformed source-map payloads, bundles of repo test trees with a mutated file, real-directory bundles with mutated package.json/tsconfig.json × random flags. Observed per case: the call returned, no `panic:`/`Internal error` text, canary build still reproducible; per batch: goroutines back to baseline, process alive. Held-on-observed only.",
+         "Trusted: the Go runtime (process exit status, goroutine count), the journal written before each call. A hang is a call exceeding 60 s under load, confirmed alone with 120 s. Two super-linear inputs (nested CSS rules, nested arrows) are capped in the workload and probed separately as known findings.",
+         "DESIGN.md §3 C16"),
  "C13": ("differential parsing: esbuild output judged by V8 + acorn per goal; token-stream fixed point T(T(x))=T(x); acceptance of reference-valid inputs",
          "Exploration: ~27k inputs per quick run (repo test inputs, rare-production seeds × wrappers × pairs, token-level mutants, generated programs) × option variants; each error-free output is parsed by two independent parsers in the requested goal, re-transformed and compared as token streams; every reference-valid input must be accepted. Held-on-observed only.",
          "Trusted: V8 (Node 20) and acorn 8.16 as the reference grammar (an output counts as invalid only when both reject it while one accepted the input in that goal); acorn's tokenizer for comment-insensitive comparison. Mutant stream pinned by VERIF_MUTSEED (default 1), see DESIGN C13.",
